@@ -699,7 +699,7 @@ def configs(tier):
     for wrap in ("space", "any", "clip"):
         for align in ("left", "center", "right"):
             for W in (1, 2, 3, 4) if quick else (1, 2, 3, 4, 5, 6):
-                if quick and W == 4 and align != "left":
+                if quick and W in (1, 4) and align != "left":
                     continue
                 cfgs.append(edit_cfg("", W, wrap, align, multiline=True))
     # captions
@@ -761,12 +761,18 @@ def tasks_for(tier):
     tasks = []
     for cfg in numeric_configs(tier):
         tasks.append({"cfg": cfg, "inits": [("", 0)], "depth": 4 if quick else 5, "expand_len": 3 if quick else 4, "click_depth": 2})
-    per_task = 150 if quick else 400
-    for cfg in configs(tier):
+    per_task = 80 if quick else 400
+    for ci, cfg in enumerate(configs(tier)):
         texts = core_texts if is_core(cfg) else other_texts
         inits = [(t, p) for t in texts for p in range(len(t) + 1)]
+        if quick:
+            # time budget of the quick tier (the run has to stay well below 45 s wall also when the cores
+            # are shared): every second initial state, the phase alternating with the configuration index
+            # (deterministic; neighbouring configurations -- same wrap and alignment, next width -- take
+            # complementary halves).  The thorough tier takes every initial state.
+            inits = [x for k, x in enumerate(inits) if (k + ci) % 2 == 0]
         for i in range(0, len(inits), per_task):
-            depth = (3 if is_core(cfg) else 2) if quick else 4
+            depth = 2 if quick else 4
             tasks.append({"cfg": cfg, "inits": inits[i : i + per_task], "depth": depth, "expand_len": 8, "click_depth": 1 if (not quick and is_core(cfg)) else 0, "pref_keys": ["up", "down", "a"] if quick else PREF_KEYS})
     return tasks
 
@@ -838,8 +844,8 @@ def run(tier="quick", seed=0):
     bound = (
         f"Edit: {ncfg} configurations (wrap space/any/clip x align x width 1..{4 if tier == 'quick' else 6}; captions, multiline/allow_tab/mask, str and UTF-8 bytes) x "
         f"{len(core_texts)} texts for the {sum(1 for c in configs(tier) if is_core(c))} plain configurations ({'all of length <= 2 over {a, space, newline, 中, U+0301}, all <= 3 over {a, space, 中}, 6 longer ones' if tier == 'quick' else 'all <= 3 over {a, space, newline, 中, U+0301}, all <= 4 over {a, space, 中}, 11 longer ones (up to 9 characters)'}) and {len(other_texts)} texts ({'all <= 2, 6 longer' if tier == 'quick' else 'all <= 2, all <= 3 without U+0301, 11 longer'}) for the others "
-        f"x every cursor x every event ({len(PRINT_KEYS + NAV_KEYS + UNUSED_KEYS)} keys, a click on every cell, a button-3 press), "
-        f"preferred-column states expanded to event sequences of length {'3 (plain configurations) / 2 (others)' if tier == 'quick' else 4}; numeric: {nnum} configurations, all key sequences up to length {4 if tier == 'quick' else 5} over {len(NUM_KEYS)} keys from the empty widget (memoised on state)"
+        f"x every cursor{' (quick tier: every second (text, cursor) pair, the phase alternating with the configuration)' if tier == 'quick' else ''} x every event ({len(PRINT_KEYS + NAV_KEYS + UNUSED_KEYS)} keys, a click on every cell, a button-3 press), "
+        f"preferred-column states expanded to event sequences of length {2 if tier == 'quick' else 4}; numeric: {nnum} configurations, all key sequences up to length {4 if tier == 'quick' else 5} over {len(NUM_KEYS)} keys from the empty widget (memoised on state)"
     )
     checks = []
     for clause in CLAUSES:
